@@ -1770,6 +1770,14 @@ def b_sorted(run, it, key=None, reverse=None):
     try:
         keys = [se.conc(run.call(key, [x])) if key is not None else se.conc(x) for x in items]
     except se.NotConcrete:
+        # up to two items: list.sort starts (count_run) with the comparison items[1] < items[0]; whatever that comparison
+        # raises propagates, its truth value decides the order (a stable sort of two items needs nothing else)
+        ks = [run.call(key, [x]) if key is not None else x for x in items]
+        if len(items) <= 1:
+            return VList(list, list(items))
+        if len(items) == 2 and not (reverse is not None and se.conc(reverse)):
+            swapped = run.is_true(run.richcmp("Lt", ks[1], ks[0]))
+            return VList(list, [items[1], items[0]] if swapped else list(items))
         raise Unsupported("sorted of symbolic values")
     order = sorted(range(len(items)), key=lambda i: keys[i], reverse=bool(reverse and se.conc(reverse)))
     return VList(list, [items[i] for i in order])
